@@ -46,6 +46,8 @@ def strategy():
       (1, st.tuples(st.just('stop'), tid)),
       (1, st.tuples(st.just('early_stop'), tid)),
       (1, st.tuples(st.just('delete_trial'), tid)),
+      # through a handle obtained earlier (the trial may be gone by now)
+      (1, st.tuples(st.just('delete_trial_stale_handle'), tid)),
       (2, st.tuples(st.just('get_trial'), tid)),
       (1, st.tuples(st.just('trial_params'), tid)),
       (1, st.tuples(st.just('trial_md'), tid, st.sampled_from(['k', 'j']),
@@ -221,6 +223,8 @@ def _run_program(dep, backend, ops, owner, variant='small'):
                                           study_id=sid)
   name = study.resource_name
 
+  handles = {}
+
   def snap():
     try:
       return [_trial_obs(t) for t in study.trials().get()]
@@ -232,7 +236,10 @@ def _run_program(dep, backend, ops, owner, variant='small'):
     msg = ''
     try:
       if kind == 'suggest':
-        r = [t.id for t in study.suggest(count=op[1], client_id=op[2])]
+        got_ = list(study.suggest(count=op[1], client_id=op[2]))
+        for h_ in got_:
+          handles[h_.id] = h_
+        r = [t.id for t in got_]
       elif kind == 'complete':
         tr = study.get_trial(op[1])
         if op[2] == 'measurement':
@@ -257,6 +264,9 @@ def _run_program(dep, backend, ops, owner, variant='small'):
         r = None  # advisory boolean
       elif kind == 'delete_trial':
         r = study.get_trial(op[1]).delete()
+      elif kind == 'delete_trial_stale_handle':
+        h_ = handles.get(op[1])
+        r = None if h_ is None else h_.delete()
       elif kind == 'get_trial':
         r = _trial_obs(study.get_trial(op[1]).materialize())
       elif kind == 'trial_params':
